@@ -1037,10 +1037,13 @@ impl World {
                     self.last_pre.insert(*k, a.clone());
                 }
             }
+            // the monitors' memory of the committed history must not learn from a simulation
+            let mem = m.save_state();
             self.step_events(m, &out);
             // "virtual commit": the transaction would commit with exactly this state, so the
             // commit-time monitors can judge it without changing the chain
             m.on_tx_commit(self, ixs, &out);
+            m.restore_state(mem);
             for (k, a) in saved {
                 match a {
                     Some(a) => {
@@ -1052,7 +1055,9 @@ impl World {
                 }
             }
         } else {
+            let mem = m.save_state();
             m.on_reject(self, ixs, &out);
+            m.restore_state(mem);
         }
         out
     }
